@@ -11,8 +11,8 @@ import (
 // executor's reach); limit/passes bookkeeping of Scan/scanAmmos is the subject.
 func HarnessC08JsonArrayScan() {
 	E := int(vConcretize(vNondetInt("E", 1, 3)))
-	limit := uint(vNondetInt("limit", 0, 3))
-	passes := uint(vNondetInt("passes", 0, 3))
+	limit := uint(vNondetInt("limit", 0, vHi(3, 8)))
+	passes := uint(vNondetInt("passes", 0, vHi(3, 8)))
 	vAssume(limit != 0 || passes != 0)
 	d := &jsonlineDecoder{protoDecoder: protoDecoder{config: config.Config{Limit: limit, Passes: passes}}}
 	tags := []string{"t1", "t2", "t3"}
